@@ -9,7 +9,7 @@ missed=0
 for d in ${@:-seeded/*/}; do
   d=${d%/}
   name=$(basename $d)
-  id=${name:0:3}
+  id=${name:0:3}; [ -f $d/check_with ] && id=$(cat $d/check_with)
   if ! git -C /repo apply --check $PWD/$d/patch.diff 2>/dev/null; then echo "SKIP   $name (patch does not apply to the current tree)"; continue; fi
   git -C /repo apply $PWD/$d/patch.diff
   out=$(./check $id --tier quick 2>&1 | grep -v "^KNOWN" | tail -1 | cut -c1-160)
